@@ -36,6 +36,14 @@ def run(ctx, replay):
             for h in hs:
                 n += 1
                 scen.append(synccommon.to_scenario(n, h, np))
+        # two rooms and rows moved between them (the scenarios of C18): the log of the room a row leaves must follow
+        import c18
+        hs = ctx.generate(os.path.join(vlib.SPEC, "events"), "Gen_Events", "CONSTANTS\n  MaxLen = 8\n  Mode = \"sim\"\nSPECIFICATION GSpec\nINVARIANT Emit\nCHECK_DEADLOCK FALSE\n",
+                          "moves", workers=1, simulate="num=%d" % (60 if quick else 600), depth=8, timeout=300, limit=60 if quick else 600)
+        for h in hs:
+            if any(o["op"] == "move" for o in h):
+                n += 1
+                scen.append(c18.to_scenario(n, h))
         # directed: what one recomputation pass meets (several entities pending, computed days before / between / after)
         hs = ctx.generate(D, "Gen_DailyLog", "SPECIFICATION Spec\nINVARIANT Emit\nCHECK_DEADLOCK FALSE\n", "passes", workers=1, timeout=1500,
                           limit=160 if quick else 5000)
